@@ -316,7 +316,9 @@ func (fe *FnExec) checkThreadCallees() {
 		return
 	}
 	seen := map[string]bool{}
-	for _, b := range fe.Fn.Blocks {
+	blocks := append([]*ssa.BasicBlock(nil), fe.Fn.Blocks...)
+	for bi := 0; bi < len(blocks); bi++ {
+		b := blocks[bi]
 		for _, in := range b.Instrs {
 			call, ok := in.(ssa.CallInstruction)
 			if !ok {
@@ -327,6 +329,11 @@ func (fe *FnExec) checkThreadCallees() {
 				continue
 			}
 			seen[f.String()] = true
+			if _, isCall := in.(*ssa.Call); isCall && fe.inlinableFn(f) {
+				// executed in place: its accesses are checked on this function's paths
+				blocks = append(blocks, f.Blocks...)
+				continue
+			}
 			cc := fe.P.Contracts[f.String()]
 			status, raw := "unsat", "callee may run on a request thread"
 			if cc == nil || cc.Thread != "any" {
@@ -913,21 +920,35 @@ func (fe *FnExec) env(st *State, old *State) *Env {
 
 func (fe *FnExec) numberSites() {
 	calls := map[string]int{}
-	for _, b := range fe.Fn.Blocks {
-		for _, in := range b.Instrs {
-			switch x := in.(type) {
-			case ssa.CallInstruction:
-				name := calleeShortName(x.Common())
-				calls[name]++
-				fe.callOrd[in] = calls[name]
-			default:
-				if name := pseudoCallName(in); name != "" {
+	visited := map[*ssa.Function]bool{fe.Fn: true}
+	var number func(f *ssa.Function)
+	number = func(f *ssa.Function) {
+		for _, b := range f.Blocks {
+			for _, in := range b.Instrs {
+				switch x := in.(type) {
+				case ssa.CallInstruction:
+					// a helper executed in place (12.15): its call sites are numbered
+					// where the helper is called, so that `call WriteFrame#1 ...` still
+					// finds the call after it has been moved into a helper
+					if c, ok := in.(*ssa.Call); ok && !c.Common().IsInvoke() {
+						if h, ok := c.Common().Value.(*ssa.Function); ok && !visited[h] && fe.inlinableFn(h) {
+							visited[h] = true
+							number(h)
+						}
+					}
+					name := calleeShortName(x.Common())
 					calls[name]++
 					fe.callOrd[in] = calls[name]
+				default:
+					if name := pseudoCallName(in); name != "" {
+						calls[name]++
+						fe.callOrd[in] = calls[name]
+					}
 				}
 			}
 		}
 	}
+	number(fe.Fn)
 }
 
 // pseudoCallName: channel operations appear in the call trace as "send", "recv"
@@ -1419,26 +1440,15 @@ const maxInlineDepth = 4
 // inlinable: a static call to a function of this repository that has a body, no
 // contract, no loop, no defer/go/closure, is not already being inlined.
 func (fe *FnExec) inlinable(st *State, x *ssa.Call) *ssa.Function {
-	if fe.Mode == "permissive" {
-		// permissive functions abstract calls without contract (havoc); their clauses
-		// are written against that abstraction
-		return nil
-	}
 	c := x.Common()
 	if c.IsInvoke() {
 		return nil
 	}
 	f, ok := c.Value.(*ssa.Function)
-	if !ok || f.Pkg == nil || len(f.Blocks) == 0 || len(f.FreeVars) > 0 {
+	if !ok || !fe.inlinableFn(f) {
 		return nil
 	}
-	if !strings.HasPrefix(f.Pkg.Pkg.Path(), "github.com/TheCacophonyProject/thermal-recorder") {
-		return nil
-	}
-	if fe.P.Contracts[f.String()] != nil {
-		return nil
-	}
-	if len(st.frames) >= maxInlineDepth || f == fe.Fn {
+	if len(st.frames) >= maxInlineDepth {
 		return nil
 	}
 	for _, fr := range st.frames {
@@ -1446,15 +1456,33 @@ func (fe *FnExec) inlinable(st *State, x *ssa.Call) *ssa.Function {
 			return nil
 		}
 	}
-	if ok, seen := fe.inlineOK[f]; seen {
-		if ok {
-			return f
-		}
-		return nil
+	return f
+}
+
+// inlinableFn: the state-independent part of the decision.
+func (fe *FnExec) inlinableFn(f *ssa.Function) bool {
+	if f == nil || f.Pkg == nil || len(f.Blocks) == 0 || len(f.FreeVars) > 0 || f == fe.Fn || f.Synthetic != "" || f.Name() == "init" {
+		return false
 	}
-	good := true
-	// acyclic control flow: blocks are numbered in a way that does not guarantee
-	// forward edges, so look for a cycle explicitly
+	if fe.P.Opaque[shortFn(f.String())] {
+		// declared `opaque` in a contract file: abstracted at every call (the clauses of
+		// the permissive functions that call it are written against that abstraction)
+		return false
+	}
+	if fe.Mode != "" && fe.Mode != "permissive" {
+		return false
+	}
+	if !strings.HasPrefix(f.Pkg.Pkg.Path(), "github.com/TheCacophonyProject/thermal-recorder") {
+		return false
+	}
+	if fe.P.Contracts[f.String()] != nil {
+		return false
+	}
+	if ok, seen := fe.inlineOK[f]; seen {
+		return ok
+	}
+	good := f.Recover == nil
+	// acyclic control flow: look for a cycle explicitly
 	color := map[*ssa.BasicBlock]int{}
 	var dfs func(b *ssa.BasicBlock)
 	dfs = func(b *ssa.BasicBlock) {
@@ -1478,17 +1506,11 @@ func (fe *FnExec) inlinable(st *State, x *ssa.Call) *ssa.Function {
 			}
 		}
 	}
-	if f.Recover != nil {
-		good = false
-	}
 	if fe.inlineOK == nil {
 		fe.inlineOK = map[*ssa.Function]bool{}
 	}
 	fe.inlineOK[f] = good
-	if good {
-		return f
-	}
-	return nil
+	return good
 }
 
 func (fe *FnExec) runBlock(st *State, b *ssa.BasicBlock) {
@@ -1749,8 +1771,28 @@ func (fe *FnExec) havocLoop(st *State, l *Loop) {
 		blocks = append(blocks, b)
 	}
 	sort.Slice(blocks, func(i, j int) bool { return blocks[i].Index < blocks[j].Index })
+	// helpers executed in place (12.15) inside the loop: their stores and calls are
+	// effects of the loop body too
+	{
+		seenFn := map[*ssa.Function]bool{}
+		for bi := 0; bi < len(blocks); bi++ {
+			for _, in := range blocks[bi].Instrs {
+				if c, ok := in.(*ssa.Call); ok {
+					if f, ok := c.Common().Value.(*ssa.Function); ok && !c.Common().IsInvoke() && !seenFn[f] && fe.inlinableFn(f) {
+						seenFn[f] = true
+						blocks = append(blocks, f.Blocks...)
+					}
+				}
+			}
+		}
+	}
 	for _, b := range blocks {
 		for _, in := range b.Instrs {
+			if c, ok := in.(*ssa.Call); ok {
+				if f, ok := c.Common().Value.(*ssa.Function); ok && !c.Common().IsInvoke() && fe.inlinableFn(f) {
+					continue // its body is scanned instead
+				}
+			}
 			switch x := in.(type) {
 			case *ssa.Alloc:
 				if isStructByValue(x.Type().(*types.Pointer).Elem()) {
